@@ -784,12 +784,7 @@ ref("alias-list-collect", ["C17"], "get_alias_list written as iter().map().colle
 mut("C18", "space-test-on-expanded-line", "R18-2|main|typed-line", "the leading-space test reads the line after !! expansion",
     (M, "                if !sh.cmd.starts_with(' ') && line != sh.previous_cmd {",
      "                if !line.starts_with(' ') && line != sh.previous_cmd {"))
-mut("C14", "no-soi-prefix-if", "R14-6|grammar|EXP|leading-blank|EXP_IF", "EXP_IF loses its (SOI)? prefix",
-    ("src/parsers/grammar.pest", """EXP_IF = {
-    (SOI)? ~
-    IF_IF_BR ~""", """EXP_IF = {
-    IF_IF_BR ~"""))
-ref("grammar-soi-at-top", ["C14"], "the start-of-input marker moved to the top rule (SOI ~ ...)* instead of the three block rules",
+ref("grammar-drop-inner-soi", ["C14"], "the (SOI)? prefixes of the three block rules removed (EXP itself starts with SOI)",
     ("src/parsers/grammar.pest", """EXP_IF = {
     (SOI)? ~
     IF_IF_BR ~""", """EXP_IF = {
@@ -801,9 +796,11 @@ ref("grammar-soi-at-top", ["C14"], "the start-of-input marker moved to the top r
     ("src/parsers/grammar.pest", """EXP_WHILE = {
     (SOI)? ~
     WHILE_HEAD ~""", """EXP_WHILE = {
-    WHILE_HEAD ~"""),
-    ("src/parsers/grammar.pest", """EXP = { (EXP_IF | EXP_FOR | EXP_WHILE | CMD)* ~ EOI }""",
-     """EXP = { SOI ~ (EXP_IF | EXP_FOR | EXP_WHILE | CMD)* ~ EOI }"""))
+    WHILE_HEAD ~"""))
+mut("C14", "top-rule-without-soi", "R14-8|grammar|balance-agreement",
+    "EXP loses its SOI anchor (state before the repo fix): an indented unbalanced first line is accepted as a command",
+    ("src/parsers/grammar.pest", "EXP = { SOI ~ (EXP_IF | EXP_FOR | EXP_WHILE | CMD)* ~ EOI }",
+     "EXP = { (EXP_IF | EXP_FOR | EXP_WHILE | CMD)* ~ EOI }"))
 mut("C16", "dq-backslash-unescaped", "R16-3|parsers::parser_line::parse_line|dq-unescaped-not-reescaped",
     "inside double quotes the tokenizer turns two backslashes into one; the renderer does not re-escape it",
     (P, """        if has_backslash && sep == "\\"" && c != '\\"' {""", """        if has_backslash && sep == "\\"" && c != '\\"' && c != '\\\\' {"""))
@@ -917,7 +914,7 @@ fn expand_one_env'''))
 
 # ------------------------------------------------------------------ C14
 mut("C14", "unanchored", "R14-1", "unbalanced script silently truncated",
-    (G, "EXP = { (EXP_IF | EXP_FOR | EXP_WHILE | CMD)* ~ EOI }", "EXP = { (EXP_IF | EXP_FOR | EXP_WHILE | CMD)* }"))
+    (G, "EXP = { SOI ~ (EXP_IF | EXP_FOR | EXP_WHILE | CMD)* ~ EOI }", "EXP = { SOI ~ (EXP_IF | EXP_FOR | EXP_WHILE | CMD)* }"))
 mut("C14", "all-branches-run", "first-true", "every true branch of an if runs",
     (SC, '''        // break at first successful branch
         if passed {
